@@ -8,8 +8,11 @@ import "unsafe"
 // the same events with the same per-object operation orders, hence (the
 // program being deterministic apart from scheduling) reach the same state.
 type hbState struct {
-	obj [][]uint32 // indexed by object id
-	fp  uint64
+	obj     [][]uint32 // indexed by object id
+	fp      uint64
+	clockVC []uint32
+	timeW   []uint32 // vector clock of the last write of the time object
+	timeR   []uint32 // join of the reads since
 }
 
 //go:norace
@@ -25,7 +28,7 @@ func (h *hbState) newThread(t *thread, parent int) {
 			t.vc[i] = p.vc[i]
 		}
 	}
-	for len(t.vc) <= t.id {
+	for len(t.vc) <= t.id+1 {
 		t.vc = append(t.vc, 0)
 	}
 }
@@ -45,10 +48,10 @@ func vcJoin(a, b []uint32) []uint32 {
 
 //go:norace
 func (h *hbState) event(t *thread, obj int, op Op) {
-	for len(t.vc) <= t.id {
+	for len(t.vc) <= t.id+1 {
 		t.vc = append(t.vc, 0)
 	}
-	t.vc[t.id]++
+	t.vc[t.id+1]++ // index 0 belongs to the clock pseudo-thread
 	if obj != 0 {
 		for len(h.obj) <= obj {
 			h.obj = append(h.obj, nil)
@@ -63,20 +66,7 @@ func (h *hbState) event(t *thread, obj int, op Op) {
 		}
 		h.obj[obj] = o
 	}
-	// hash of (thread, op, obj, vc)
-	x := uint64(14695981039346656037)
-	x = mix(x, uint64(t.id))
-	x = mix(x, uint64(op))
-	x = mix(x, uint64(obj))
-	for i, c := range t.vc {
-		if c != 0 {
-			x = mix(x, uint64(i)<<32|uint64(c))
-		}
-	}
-	x ^= x >> 29
-	x *= 0xbf58476d1ce4e5b9
-	x ^= x >> 32
-	h.fp += x
+	h.hashEvent(t.cid, op, 0, t.vc)
 }
 
 //go:norace
@@ -86,17 +76,99 @@ func mix(x, v uint64) uint64 {
 	return x
 }
 
-// clock folds a timer firing into the fingerprint. Firings do not commute
-// with anything: the fingerprint after the firing depends on the whole
-// fingerprint before it.
+// The virtual clock is a pseudo-thread (vector-clock index 0). A timer firing
+// is a write to the "time" object and to the timer's channel; Now() is a read
+// of the time object; arming/stopping a timer is a write of the time object.
+// Reads commute with each other, so threads that merely look at the clock are
+// not ordered among themselves.
+
+//go:norace
+func vcCopy(a []uint32) []uint32 {
+	b := make([]uint32, len(a))
+	for i := 0; i < len(a); i++ {
+		b[i] = a[i]
+	}
+	return b
+}
+
+// hashEvent adds one event to the fingerprint. Everything that goes into the
+// hash is schedule independent: threads are named by their canonical ids
+// (position in the spawn tree), objects are not named at all (the vector
+// clock already encodes which events precede this one), and the vector is
+// hashed as a set of (canonical thread, count) pairs.
 //
 //go:norace
-func (h *hbState) clock(n int, now int64) {
-	x := mix(mix(h.fp, uint64(n)), uint64(now))
+func (h *hbState) hashEvent(who uint64, op Op, _ int, vc []uint32) {
+	e := cur
+	var acc uint64
+	for i, c := range vc {
+		if c == 0 {
+			continue
+		}
+		var cid uint64 = 2 // clock
+		if i > 0 && e != nil && i-1 < len(e.threads) {
+			cid = e.threads[i-1].cid
+		}
+		y := mix(mix(14695981039346656037, cid), uint64(c))
+		y ^= y >> 31
+		y *= 0x9e3779b97f4a7c15
+		acc += y
+	}
+	x := mix(mix(mix(14695981039346656037, who), uint64(op)), acc)
 	x ^= x >> 29
 	x *= 0xbf58476d1ce4e5b9
 	x ^= x >> 32
-	h.fp = x
+	h.fp += x
+}
+
+// clock records a timer firing that delivers into channel object obj (0 if none).
+//
+//go:norace
+func (h *hbState) clock(seq uint64, now int64, obj int) {
+	if len(h.clockVC) == 0 {
+		h.clockVC = make([]uint32, 1)
+	}
+	h.clockVC[0]++
+	h.clockVC = vcJoin(h.clockVC, h.timeR)
+	h.clockVC = vcJoin(h.clockVC, h.timeW)
+	if obj != 0 {
+		for len(h.obj) <= obj {
+			h.obj = append(h.obj, nil)
+		}
+		h.clockVC = vcJoin(h.clockVC, h.obj[obj])
+		h.obj[obj] = vcCopy(h.clockVC)
+	}
+	h.timeW = vcCopy(h.clockVC)
+	h.timeR = nil
+	h.hashEvent(mix(2, seq), OpTimer, obj, h.clockVC)
+}
+
+// timeRead records that thread t looked at the clock.
+//
+//go:norace
+func (h *hbState) timeRead(t *thread) {
+	for len(t.vc) <= t.id+1 {
+		t.vc = append(t.vc, 0)
+	}
+	t.vc[t.id+1]++
+	t.vc = vcJoin(t.vc, h.timeW)
+	h.timeR = vcJoin(h.timeR, t.vc)
+	h.hashEvent(t.cid, OpYield, -1, t.vc)
+}
+
+// timeWrite records that thread t armed or stopped a timer.
+//
+//go:norace
+func (h *hbState) timeWrite(t *thread) {
+	for len(t.vc) <= t.id+1 {
+		t.vc = append(t.vc, 0)
+	}
+	t.vc[t.id+1]++
+	t.vc = vcJoin(t.vc, h.timeW)
+	t.vc = vcJoin(t.vc, h.timeR)
+	h.timeW = vcCopy(t.vc)
+	h.timeR = nil
+	h.hashEvent(t.cid, OpTimer, -1, t.vc)
 }
 
 //go:norace
